@@ -235,97 +235,124 @@ theorem file_reader (env : Env) (total : List UInt8) (evs : List OsRead) :
     · exact Or.inr ⟨h1, h3⟩
 
 -- non-vacuity: a complete header (magic, `{}`, NUL) that the content parser accepts as version 2
-example : HeaderOk ⟨fun _ => .ok 2, 1000⟩ (magic ++ [0x7b, 0x7d, 0]) ⟨true, 1000⟩ :=
+example : HeaderOk ⟨fun _ => .ok 2⟩ (magic ++ [0x7b, 0x7d, 0]) ⟨true⟩ :=
   ⟨2, by decide +kernel, rfl⟩
 -- PLAYER_NEW 2; PLAYER_NEW 3; TICK_SKIP 0; PLAYER_DIFF 2; FINISH behind that header, read byte by
 -- byte / with empty reads
 example :
-    run ⟨fun _ => .ok 2, 1000⟩ (magic ++ [0x7b, 0x7d, 0] ++ [0x42, 2, 0, 0, 0x42, 3, 0, 0, 0x41, 0, 2, 1, 1, 0x40])
+    run ⟨fun _ => .ok 2⟩ (magic ++ [0x7b, 0x7d, 0] ++ [0x42, 2, 0, 0, 0x42, 3, 0, 0, 0x41, 0, 2, 1, 1, 0x40])
         (List.replicate 33 1) =
       ⟨[.tickStart 0, .playerNew 2 0 0, .playerNew 3 0 0, .tickEnd 0, .tickStart 1,
-        .playerChange 2 1 1 0 0, .tickEnd 1], .finished, 4⟩ := by decide +kernel
+        .playerChange 2 1 1 0 0, .tickEnd 1], .finished, ⟨4, [(2, (1, 1)), (3, (0, 0))], []⟩⟩ := by decide +kernel
 example :
-    run ⟨fun _ => .ok 2, 1000⟩ (magic ++ [0x7b, 0x7d, 0] ++ [0x42, 2, 0, 0, 0x42, 3, 0, 0, 0x41, 0, 2, 1, 1, 0x40])
+    run ⟨fun _ => .ok 2⟩ (magic ++ [0x7b, 0x7d, 0] ++ [0x42, 2, 0, 0, 0x42, 3, 0, 0, 0x41, 0, 2, 1, 1, 0x40])
         [0, 5, 0, 0, 2, 17, 1] =
-      runWhole ⟨true, 1000⟩ [0x42, 2, 0, 0, 0x42, 3, 0, 0, 0x41, 0, 2, 1, 1, 0x40] := by decide +kernel
+      runWhole ⟨true⟩ [0x42, 2, 0, 0, 0x42, 3, 0, 0, 0x41, 0, 2, 1, 1, 0x40] := by decide +kernel
 -- header framing: wrong magic after 16 bytes, version 3, header cut before its NUL
 example :
-    (run ⟨fun _ => .ok 2, 1000⟩ (List.replicate 16 7 ++ [0x7b]) [3, 3]).final = .err (.header .wrongMagic) ∧
-    (run ⟨fun _ => .ok 3, 1000⟩ (magic ++ [0x7b, 0x7d, 0, 0x40]) [1, 1]).final = .err .unknownVersion ∧
-    (run ⟨fun _ => .ok 2, 1000⟩ (magic ++ [0x7b, 0x7d]) [4]).final = .err .unexpectedEnd := by decide +kernel
+    (run ⟨fun _ => .ok 2⟩ (List.replicate 16 7 ++ [0x7b]) [3, 3]).final = .err (.header .wrongMagic) ∧
+    (run ⟨fun _ => .ok 3⟩ (magic ++ [0x7b, 0x7d, 0, 0x40]) [1, 1]).final = .err .unknownVersion ∧
+    (run ⟨fun _ => .ok 2⟩ (magic ++ [0x7b, 0x7d]) [4]).final = .err .unexpectedEnd := by decide +kernel
 -- a callback that fails at its fourth invocation: prefix of the items, then the callback error
 example :
-    runCb ⟨fun _ => .ok 2, 1000⟩
+    runCb ⟨fun _ => .ok 2⟩
       { rem := magic ++ [0x7b, 0x7d, 0] ++ [0x42, 2, 0, 0, 0x42, 3, 0, 0, 0x40],
         ds := [.size 19, .size 4, .size 2, .fail] } =
-      ⟨[.tickStart 0, .playerNew 2 0 0], .cbErr, 3⟩ := by decide +kernel
+      ⟨[.tickStart 0, .playerNew 2 0 0], .cbErr, ⟨3, [(2, (0, 0))], []⟩⟩ := by decide +kernel
 -- the file reader with an interruption and short reads
 example :
-    runFile ⟨fun _ => .ok 2, 1000⟩ (magic ++ [0x7b, 0x7d, 0] ++ [0x42, 2, 0, 0, 0x40])
+    runFile ⟨fun _ => .ok 2⟩ (magic ++ [0x7b, 0x7d, 0] ++ [0x42, 2, 0, 0, 0x40])
       [.data 1 (by decide), .eintr, .data 30 (by decide), .eintr, .data 100 (by decide)] =
-      ⟨[.tickStart 0, .playerNew 2 0 0, .tickEnd 0], .finished, 3⟩ := by decide +kernel
+      ⟨[.tickStart 0, .playerNew 2 0 0, .tickEnd 0], .finished, ⟨3, [(2, (0, 0))], []⟩⟩ := by decide +kernel
 
 /-! ### Totality -/
-
-/-- **Any byte string — header included — yields items and then the end, an error, or — only for
-a client id the machine cannot allocate table slots for (finding D18) — resource exhaustion.**
-The model has no panic outcome (the arithmetic is checked or wrapping, `offset ≤ len` holds by
-construction); what this theorem adds is that none of the loops runs out of its fuel, for any
-schedule. -/
-theorem reader_total (env : Env) (total : List UInt8) (ds : List Nat) :
-    (run env total ds).final = .finished ∨
-    (∃ e, (run env total ds).final = .err e) ∨
-    (run env total ds).final = .oom := by
-  rw [run_eq_reference]
-  unfold reference
-  cases pHeader env.json total with
-  | needMore => exact Or.inr (Or.inl ⟨_, rfl⟩)
-  | err e => exact Or.inr (Or.inl ⟨_, rfl⟩)
-  | ok r rest =>
-    cases r with
-    | bad e => exact Or.inr (Or.inl ⟨_, rfl⟩)
-    | version v =>
-      simp only
-      cases env.cfgOf v with
-      | none => exact Or.inr (Or.inl ⟨_, rfl⟩)
-      | some cfg =>
-        simp only
-        have := runWhole_final cfg rest
-        cases h : (runWhole cfg rest).final with
-        | finished => exact Or.inl rfl
-        | err e => exact Or.inr (Or.inl ⟨e, rfl⟩)
-        | oom => exact Or.inr (Or.inr rfl)
-        | cbErr => exact absurd h (runWhole_not_cbErr cfg rest)
-        | outOfFuel => exact absurd h this
 
 /-- The full totality statement: items, then the end or an error — nothing else. -/
 def C17_full : Prop :=
   ∀ (env : Env) (total : List UInt8) (ds : List Nat),
     (run env total ds).final = .finished ∨ ∃ e, (run env total ds).final = .err e
 
-/-- Totality for streams whose `PLAYER_NEW`/`INPUT_NEW` records stay below the number of table
-slots the machine can allocate (the excluding hypothesis of finding D18). -/
-theorem reader_total_partial (env : Env) (hdr s : List UInt8) (cfg : Cfg) (hh : HeaderOk env hdr cfg)
-    (ds : List Nat) (hc : CidsBelow cfg.memCids (parseAll cfg.hasEx (s.length + 1) s).1) :
-    (run env (hdr ++ s) ds).final = .finished ∨ ∃ e, (run env (hdr ++ s) ds).final = .err e := by
-  rcases reader_total env (hdr ++ s) ds with h | h | h
-  · exact Or.inl h
-  · exact Or.inr h
-  · rw [run_eq_runWhole env hdr s cfg hh] at h
-    exact absurd h (interp_no_oom cfg _ _ _ hc)
+/-- **Any byte string — header included —, under any fragmentation, yields items and then the end
+or an error; nothing else.**  The model has no panic outcome (the arithmetic is checked or wrapping,
+`offset ≤ len` holds by construction) and, since the repair of finding D18 (the tables are sparse
+maps), no resource-exhaustion outcome either: every client id `0 … i32::MAX` costs one map node.
+What this theorem adds is that none of the loops runs out of its fuel, for any schedule.  (Until the
+repair this was `reader_total_partial`, under the hypothesis that every `PLAYER_NEW`/`INPUT_NEW`
+client id stays below the number of allocatable `VecMap` slots.) -/
+theorem reader_total (env : Env) (total : List UInt8) (ds : List Nat) :
+    (run env total ds).final = .finished ∨ ∃ e, (run env total ds).final = .err e := by
+  rw [run_eq_reference]
+  unfold reference
+  cases pHeader env.json total with
+  | needMore => exact Or.inr ⟨_, rfl⟩
+  | err e => exact Or.inr ⟨_, rfl⟩
+  | ok r rest =>
+    cases r with
+    | bad e => exact Or.inr ⟨_, rfl⟩
+    | version v =>
+      simp only
+      cases env.cfgOf v with
+      | none => exact Or.inr ⟨_, rfl⟩
+      | some cfg =>
+        simp only
+        have := runWhole_final cfg rest
+        cases h : (runWhole cfg rest).final with
+        | finished => exact Or.inl rfl
+        | err e => exact Or.inr ⟨e, rfl⟩
+        | cbErr => exact absurd h (runWhole_not_cbErr cfg rest)
+        | outOfFuel => exact absurd h this
+
+/-- The full statement holds. -/
+theorem reader_total_full : C17_full := reader_total
+
+/-- The same for every fragmentation given as an explicit chunk list, and for the public `Reader`
+of `file.rs` over any `read(2)` behaviour without an I/O error. -/
+theorem reader_total_chunks_and_file (env : Env) (total : List UInt8) :
+    (∀ cs : List (List UInt8), cs.flatten = total →
+      (runCb env (Cb.ofChunks cs)).final = .finished ∨ ∃ e, (runCb env (Cb.ofChunks cs)).final = .err e) ∧
+    (∀ evs : List OsRead, OsRead.eio ∉ evs →
+      (runFile env total evs).final = .finished ∨ ∃ e, (runFile env total evs).final = .err e) := by
+  have key := reader_total env total []
+  rw [run_eq_reference] at key
+  refine ⟨fun cs h => ?_, fun evs h => ?_⟩
+  · rw [(chunks_independent env total cs cs h h).2]; exact key
+  · rw [(file_reader env total evs).1 h]; exact key
+
+/-! ### The reader before the repair of finding D18 -/
+
+/-- Below the table bound the old reader (tables = `VecMap`s on a machine that can allocate `slots`
+entries, `Legacy.runWhole`) produced exactly what the repaired reader produces: the repair changes
+nothing but the resource use.  (`CidsBelow` is the excluding hypothesis `reader_total_partial`
+carried while D18 was open.) -/
+theorem legacy_agrees_below (slots : Nat) (cfg : Cfg) (s : List UInt8)
+    (hc : CidsBelow slots (parseAll cfg.hasEx (s.length + 1) s).1) :
+    Legacy.runWhole slots cfg s = some (runWhole cfg s) :=
+  Legacy.interp_of_below slots cfg _ _ _ hc
 
 -- non-vacuity: the hypothesis is decidable and holds for an ordinary stream
 example : CidsBelow 1000 (parseAll true 15 [0x42, 2, 0, 0, 0x42, 3, 0, 0, 0x41, 0, 2, 1, 1, 0x40]).1 := by
   decide +kernel
 
-/-- Finding D18 in the model: one `PLAYER_NEW` record with client id = number of allocatable
-slots ends in resource exhaustion, so `C17_full` does not hold. -/
-theorem reader_total_witness : ¬ C17_full := by
-  intro h
-  have hw : (run ⟨fun _ => .ok 2, 1000⟩ (magic ++ [0x7b, 0x7d, 0] ++ [0x42, 0xa8, 0x0f, 0, 0]) []).final = .oom := by
-    decide +kernel
-  rcases h ⟨fun _ => .ok 2, 1000⟩ (magic ++ [0x7b, 0x7d, 0] ++ [0x42, 0xa8, 0x0f, 0, 0]) [] with h | ⟨e, h⟩ <;>
-    rw [hw] at h <;> simp at h
+/-- **Finding D18 in the pre-repair model**, on the recorded input (`PLAYER_NEW` with client id
+2^17, then `FINISH`, behind a complete version-2 header): whatever number of table slots up to 2^17
+the machine can allocate, the old reader ends in resource exhaustion (`none`) — while the repaired
+reader reads the same file to its end. -/
+theorem d18_legacy_witness (slots : Nat) (h : slots ≤ 131072) :
+    Legacy.reference slots ⟨fun _ => .ok 2⟩ (magic ++ [0x7b, 0x7d, 0] ++ [0x42, 0x80, 0x80, 0x10, 0, 0, 0x40]) = none ∧
+    run ⟨fun _ => .ok 2⟩ (magic ++ [0x7b, 0x7d, 0] ++ [0x42, 0x80, 0x80, 0x10, 0, 0, 0x40]) [] =
+      ⟨[.tickStart 0, .playerNew 131072 0 0, .tickEnd 0], .finished, ⟨131073, [(131072, (0, 0))], []⟩⟩ := by
+  refine ⟨?_, by decide +kernel⟩
+  have hh : pHeader (fun _ => .ok 2) (magic ++ [0x7b, 0x7d, 0] ++ [0x42, 0x80, 0x80, 0x10, 0, 0, 0x40]) =
+      .ok (.version 2) [0x42, 0x80, 0x80, 0x10, 0, 0, 0x40] := by decide +kernel
+  have hp : parseAll true 8 [0x42, 0x80, 0x80, 0x10, 0, 0, 0x40] =
+      ([⟨.playerNew 131072, .playerNew 131072 0 0⟩, ⟨.finish, .finish⟩], .afterFinish) := by decide +kernel
+  have hpre : preAll 4 Reader.empty (.playerNew 131072) =
+      ([.tickStart 0], .ready { Reader.empty with inTick := true }) := by rfl
+  simp only [Legacy.reference, hh, Env.cfgOf, Legacy.runWhole, List.length_cons, List.length_nil]
+  show Legacy.interp slots ⟨true⟩ Reader.empty (parseAll true 8 [0x42, 0x80, 0x80, 0x10, 0, 0, 0x40]).1
+    (parseAll true 8 [0x42, 0x80, 0x80, 0x10, 0, 0, 0x40]).2 = none
+  rw [hp]
+  exact Legacy.interp_none_of_first hpre ⟨131072, by decide, h⟩
 
 /-! ### Tick structure -/
 
@@ -382,18 +409,18 @@ example :
     docItemTicks 0 none ((messages true [0x42, 2, 0, 0, 0x42, 3, 0, 0, 0x41, 0, 2, 1, 1, 0x40]).map msgKind) =
       [0, 0, 1] := by decide +kernel
 example :
-    itemTicks none (runWhole ⟨true, 1000⟩ [0x42, 2, 0, 0, 0x42, 3, 0, 0, 0x41, 0, 2, 1, 1, 0x40]).items =
+    itemTicks none (runWhole ⟨true⟩ [0x42, 2, 0, 0, 0x42, 3, 0, 0, 0x41, 0, 2, 1, 1, 0x40]).items =
       [some 0, some 0, some 1] := by decide +kernel
 -- wrapping: PLAYER_NEW 0 at (i32::MAX, i32::MIN); PLAYER_DIFF 0 (+1, -1)
 example :
-    reported (runWhole ⟨true, 1000⟩
+    reported (runWhole ⟨true⟩
       [0x42, 0, 0xbf, 0xff, 0xff, 0xff, 0x0f, 0xff, 0xff, 0xff, 0xff, 0x0f, 0, 1, 0x40, 0x40]).items =
       [.playerNew 0 2147483647 (-2147483648), .playerChange 0 (-2147483648) 2147483647 2147483647 (-2147483648)] := by
   decide +kernel
 -- explicit chunks with empty ones
 example :
-    runCb ⟨fun _ => .ok 2, 1000⟩
+    runCb ⟨fun _ => .ok 2⟩
       (Cb.ofChunks [magic, [], [0x7b, 0x7d], [0, 0x42], [2, 0], [], [0, 0x40]]) =
-      ⟨[.tickStart 0, .playerNew 2 0 0, .tickEnd 0], .finished, 3⟩ := by decide +kernel
+      ⟨[.tickStart 0, .playerNew 2 0 0, .tickEnd 0], .finished, ⟨3, [(2, (0, 0))], []⟩⟩ := by decide +kernel
 
 end Tw.Props.C17
